@@ -51,7 +51,7 @@ def main():
     demo = os.path.join(seed, "demo.rs")
     if not os.path.exists(demo):
         cands = glob.glob(os.path.join(seed, "demo", "*.rs")) + glob.glob(os.path.join(seed, "*.rs"))
-        demo = cands[0]
+        demo = cands[0] if cands else None
     tenv = {"CARGO_TARGET_DIR": os.path.join(base, "target")}
     res = {"seed": os.path.basename(seed), "verif_commit": res_commit}
     t0 = time.time()
@@ -60,6 +60,14 @@ def main():
         pj = json.load(open(os.path.join(seed, "eval.json")))
         if "suite_with_patch" in pj and "demo_fails_with_patch" in pj:
             prev = pj
+    if demo is None:
+        # a behaviour-preserving change (no demonstration): only the checks are run; every alarm is a false alarm
+        rc, out = sh("git apply %s" % patch, cwd=repo)
+        if rc:
+            res["error"] = "patch does not apply: " + out[-300:]
+            print(json.dumps(res)); return
+        res.update({"benign": True, "demo_passes_without_patch": None, "demo_fails_with_patch": None, "suite_with_patch": None})
+        return finish(res, props, verif, repo, seed)
     if prev is not None:
         rc, out = sh("git apply %s" % patch, cwd=repo)
         for k in ("demo_passes_without_patch", "demo_fails_with_patch", "suite_with_patch"):
